@@ -222,7 +222,16 @@ def run_measure(case):
             S.problem("is_consonant(%r, %r)" % (a, b), I.consonant(m, True), c2, detail={"measure": m})
         if bool(p2) is not I.perfect_consonant(m, True):
             S.problem("is_perfect_consonant(%r, %r)" % (a, b), I.perfect_consonant(m, True), p2, detail={"measure": m})
-    S.trans(11)
+    # the option is a truth value: any object may stand for it
+    for opt in (0, None, "", 1, 2, "yes", []):
+        c = _intervals_module.is_consonant(a, b, opt)
+        d = _intervals_module.is_dissonant(a, b, opt)
+        pc = _intervals_module.is_perfect_consonant(a, b, opt)
+        if bool(c) is not I.consonant(m, bool(opt)) or bool(d) is not (not I.consonant(m, not bool(opt))) or bool(pc) is not I.perfect_consonant(m, bool(opt)):
+            S.problem("is_consonant / is_dissonant / is_perfect_consonant(%r, %r, %r)" % (a, b, opt),
+                      [I.consonant(m, bool(opt)), not I.consonant(m, not bool(opt)), I.perfect_consonant(m, bool(opt))], [c, d, pc], detail={"measure": m})
+            break
+    S.trans(32)
     S.count("pairs")
     S.outcome((m, got if isinstance(got, int) else repr(got), tuple(vec)))
     if a == "C#b" and len(b) == 3:
@@ -242,7 +251,9 @@ HCALLS = ([("measure", (a, b)) for a, b in (("C", "E"), ("C", "G"), ("E", "C"), 
            # functions of the notes module the constructors and measure lean on, fed with octave-crossing and long spellings
            ("notes.reduce_accidentals", ("B#",)), ("notes.reduce_accidentals", ("Cbb",)), ("notes.remove_redundant_accidentals", ("C########",)),
            ("notes.remove_redundant_accidentals", ("Fbbbbbbbb",)), ("measure", ("C", "B#")), ("measure", ("Cbb", "C")),
-           ("major_unison", ("C####",)), ("minor_third", ("Gbbbb",))])
+           ("major_unison", ("C####",)), ("minor_third", ("Gbbbb",)),
+           # diatonic steps of the same module, in keys that exist and in keys that do not
+           ("third", ("E", "G")), ("third", ("E", "H")), ("fifth", ("C", "D#")), ("second", ("F", "eb"))])
 _HBASE = {}
 
 
@@ -394,6 +405,10 @@ def explore(ctx):
     if ctx.want("long_history"):
         ctx.product("long_history", [3, 5], lambda k: [k])
     if ctx.want("measure"):
+        # names of a dozen and more accidentals that mix sharps and flats, against the seven letters and each other
+        longs = ["G" + "#" * 11 + "b", "C" + "b" * 12 + "###", "A" + "#b" * 7, "E" + "b" * 13, "F" + "#" * 12 + "b" * 5, "D" + "b#" * 6 + "#"]
+        ctx.bound("measure_long_mixed_names", longs)
+        ctx.serial("measure", [[x, y] for x in longs for y in list("CDEFGAB") + longs] + [[y, x] for x in longs for y in "CDEFGAB"])
         _PAIR_NAMES[0] = P.names(k2) + [L + a * n for L in P.LETTERS for n in range(k2 + 1, 15) for a in "#b"]
         ctx.bound("pair_names", "every order of <= %d accidentals + homogeneous runs of up to 14 (%d names)" % (k2, len(_PAIR_NAMES[0])))
         ctx.bound("pairs", len(_PAIR_NAMES[0]) ** 2)
